@@ -66,6 +66,9 @@ class FuncInfo:
 
     def where(self, node=None):
         n = node if node is not None else self.node
+        src = getattr(n, "_src", None)
+        if src is not None:
+            return f"{src[0]}:{src[1]} {self.qualname}"
         return f"{self.module.relpath}:{getattr(n, 'lineno', '?')} {self.qualname}"
 
     def __repr__(self):
@@ -305,7 +308,17 @@ class Repo:
                 except SyntaxError as e:
                     raise AnalysisError(f"{rel}: does not parse: {e}")
         collapse_forwarders({k: v[3] for k, v in parsed.items()})
+        from .inline import inline_new_helpers, tag_sources, reposition
+        trees = {k: v[3] for k, v in parsed.items()}
+        if inline_new_helpers(trees, dry=True):
+            tag_sources({k: (v[1], v[3]) for k, v in parsed.items()})
+        self.inlined = inline_new_helpers(trees)  # extracted helpers go back into their callers
+        touched = {c.split(":")[0] for _, c, _ in self.inlined}
         for modname, (path, rel, src, tree) in parsed.items():
+            if modname in touched:
+                # positions are used to order constructs: give the normalised module consistent ones (the original file and line of
+                # every statement stay on the nodes as _src and are what reports print)
+                src, tree = reposition(tree)
             self.modules[modname] = Module(modname, path, rel, src, tree)
         self._link()
 
